@@ -131,6 +131,10 @@ def make_trim(N, bins, ess):
         except LoopOverrun:
             ctx.fail("terminates-within-bins", "threshold index went negative")
             return None
+        except ZeroDivisionError:
+            # object arrays: 1.0/np.sum([]) == 1.0/0 -> the selection was empty (floats give inf and an empty result)
+            ctx.fail("nonempty-selection", "empty trimmed set")
+            return None
         ctx.ok("terminates-within-bins")
         idx = [int(i) for i in idx]
         kept = set(idx)
@@ -164,7 +168,8 @@ def make_trim(N, bins, ess):
 
     def replay(m, label, v):
         w = concrete(m)
-        idx, wt = tools.trim_weights(np.arange(N), w.copy(), ess=float(essf), bins=bins)
+        with np.errstate(all="ignore"):
+            idx, wt = tools.trim_weights(np.arange(N), w.copy(), ess=float(essf), bins=bins)
         idx = [int(i) for i in idx]
         wn = w / w.sum()
         dropped = [i for i in range(N) if i not in idx]
@@ -173,6 +178,7 @@ def make_trim(N, bins, ess):
                "normalised": not math.isclose(wt.sum(), 1.0, rel_tol=1e-9),
                "ess-ratio>=requested": e(wn[idx]) / e(wn) < float(essf) - 1e-9,
                "weights-are-renormalised-originals": not np.allclose(wt, wn[idx] / wn[idx].sum(), rtol=1e-9),
+               "nonempty-selection": len(idx) == 0,
                "aligned-lengths": len(idx) != len(wt)}.get(label, False)
         return {"reproduced": bool(bad), "signature": f"trim_weights:{label}", "payload": {"w": w.tolist(), "idx": idx, "wt": wt.tolist()},
                 "what": f"trim_weights(arange({N}), {w.tolist()}, ess={float(essf)}, bins={bins}) kept {idx} with weights {wt.tolist()}: violates {label}"}
